@@ -3108,7 +3108,8 @@ class Set(Collection):
             if removed: (to_add, setdata.removed) = (to_add - removed, removed - to_add)
             if added: added |= to_add
             else: setdata.added = to_add  # added may be None
-        if to_remove:
+        if to_remove and reverse.is_collection:
+            # (for one-to-many reverse_remove() has already recorded the removals item by item)
             added, removed = setdata.added, setdata.removed  # may have been replaced above
             if added: (to_remove, setdata.added) = (to_remove - added, added - to_remove)
             if removed: removed |= to_remove
